@@ -22,10 +22,21 @@ package transmit
 // invariants of Transmission.tla after every line. Event ids in the log are the
 // positions of the enqueue lines (assigned under batch.mutex by the hook).
 //
+// Schedules are the Go scheduler's, widened only where the transmission calls a
+// collaborator (the clock's Now(), the metrics) and steered by the driver: some
+// enqueues are released when the clock is about to move, so that they overlap
+// the stale pass; in a third of the rounds the producers are released together
+// (spin barrier) for their i-th event to destination i, so that batch creation
+// collides. Environment: CX4_MAXBATCH / CX4_SUB (must equal the constants of the
+// cfg the log is validated with), CX4_MODE (mix | split), CX4_MAXROUNDS,
+// CX4_MAXLINES, and CX4_CORRUPT (start | outcome: falsifies one logged field, to
+// show that the log is really compared).
+//
 // No wall-clock waits: the only timers are watchdogs that turn a hang of the
 // code into a failed run.
 
 import (
+	"bytes"
 	"context"
 	"fmt"
 	"io"
@@ -196,15 +207,21 @@ type cx4Clock struct {
 	tickers  []*cx4Ticker
 	sleeping int
 	quit     chan struct{} // closed when Stop is about to be called: no more ticks are handed out
+	slept    chan struct{} // pinged when a goroutine has registered its Sleep
+	tight    bool          // no yields in Now(): callers released together stay together
 	stuck    atomic.Value  // string
 }
 
 func (c *cx4Clock) Now() time.Time {
-	runtime.Gosched()
+	if !c.tight {
+		runtime.Gosched()
+	}
 	c.amu.RLock()
 	t := c.FakeClock.Now()
 	c.amu.RUnlock()
-	runtime.Gosched()
+	if !c.tight {
+		runtime.Gosched()
+	}
 	return t
 }
 func (c *cx4Clock) Since(t time.Time) time.Duration { return c.Now().Sub(t) }
@@ -229,6 +246,10 @@ func (c *cx4Clock) Sleep(d time.Duration) {
 	c.sleeping++
 	c.mu.Unlock()
 	c.amu.RUnlock()
+	select {
+	case c.slept <- struct{}{}:
+	default:
+	}
 	<-tm.Chan()
 	c.mu.Lock()
 	c.sleeping--
@@ -350,7 +371,39 @@ func cx4Setup() {
 	})
 }
 
+// cx4ScanIDs is the cheap path for bodies of megabytes (walking them with msgp
+// costs seconds per event under the race detector): the array header is read
+// and the id fields ("id" followed by the 6-character id string; the padding
+// is all 'x') are located by pattern; their number must equal the array length.
+func cx4ScanIDs(b []byte) ([]int, error) {
+	n, rest, err := msgp.ReadArrayHeaderBytes(b)
+	if err != nil {
+		return nil, err
+	}
+	ids := []int{}
+	pat := []byte("\xa2id\xa6e")
+	for {
+		i := bytes.Index(rest, pat)
+		if i < 0 || len(rest) < i+len(pat)+5 {
+			break
+		}
+		id, err := strconv.Atoi(string(rest[i+len(pat) : i+len(pat)+5]))
+		if err != nil {
+			return nil, err
+		}
+		ids = append(ids, id)
+		rest = rest[i+len(pat)+5:]
+	}
+	if uint32(len(ids)) != n {
+		return ids, fmt.Errorf("array of %d events, %d ids found", n, len(ids))
+	}
+	return ids, nil
+}
+
 func cx4DecodeIDs(b []byte) ([]int, error) {
+	if len(b) > 100000 {
+		return cx4ScanIDs(b)
+	}
 	ids := []int{}
 	n, b, err := msgp.ReadArrayHeaderBytes(b)
 	if err != nil {
@@ -405,7 +458,14 @@ func cx4DecodeIDs(b []byte) ([]int, error) {
 
 func cx4Handler(host string) http.HandlerFunc {
 	return func(w http.ResponseWriter, q *http.Request) {
-		body, rerr := io.ReadAll(q.Body)
+		var body []byte
+		var rerr error
+		if q.ContentLength > 0 {
+			body = make([]byte, q.ContentLength)
+			_, rerr = io.ReadFull(q.Body, body)
+		} else {
+			body, rerr = io.ReadAll(q.Body)
+		}
 		r := cx4Cur.Load()
 		if r == nil || q.Header.Get("X-CX4-Round") != r.tag {
 			http.Error(w, "no such round", http.StatusInternalServerError)
@@ -565,6 +625,27 @@ func cx4Sized(id int, dest int, size int) (*types.Event, error) {
 		l -= m - size
 	}
 	return nil, fmt.Errorf("cannot build an event of %d bytes (empty event is %d)", size, base)
+}
+
+// cx4Barrier releases n goroutines at (as nearly as possible) the same instant.
+type cx4Barrier struct {
+	n       int32
+	arrived atomic.Int32
+	gen     atomic.Int32
+}
+
+func (b *cx4Barrier) wait() {
+	g := b.gen.Load()
+	if b.arrived.Add(1) == b.n {
+		b.arrived.Store(0)
+		b.gen.Add(1)
+		return
+	}
+	for spins := 0; b.gen.Load() == g; spins++ {
+		if spins%2000 == 1999 {
+			runtime.Gosched()
+		}
+	}
 }
 
 // ---------------------------------------------------------------------------
@@ -770,7 +851,9 @@ func cx4RunRound(tw *verifkit.TraceWriter, rng *rand.Rand, pr cx4Params, nextRea
 	perProd := 2 + rng.Intn(6)
 	fault := []int{0, 15, 30, 50}[rng.Intn(4)]
 	if pr.mode == "split" {
-		nDest, nProd, perProd, fault = 2, 2+rng.Intn(2), 4+rng.Intn(3), []int{0, 30}[rng.Intn(2)]
+		// two producers feed destination A 6-8 events around 1 MB (a full batch of MaxBatchSize = 6 has to be split at
+		// 5 MB) and destination B a few small ones; events of a megabyte are slow under the race detector
+		nDest, nProd, perProd, fault = 2, 2, 4+rng.Intn(2), []int{0, 30}[rng.Intn(2)]
 	}
 	cx4Seq++
 	r := &cx4Round{tag: "r" + strconv.Itoa(cx4Seq), tw: tw, met: cx4NewMetrics(), lg: &cx4Logger{errIDs: map[int]bool{}},
@@ -779,7 +862,11 @@ func cx4RunRound(tw *verifkit.TraceWriter, rng *rand.Rand, pr cx4Params, nextRea
 	for _, d := range cx4Dests {
 		r.keyOf[transmitKey{apiHost: cx4Servers[d.host].URL, apiKey: d.key, dataset: d.ds}] = d.letter
 	}
-	r.clock = &cx4Clock{FakeClock: clockwork.NewFakeClockAt(cx4T0), quit: make(chan struct{})}
+	r.clock = &cx4Clock{FakeClock: clockwork.NewFakeClockAt(cx4T0), quit: make(chan struct{}), slept: make(chan struct{}, 1)}
+
+	// stampede rounds: the i-th event of every producer goes to destination i and the producers are released
+	// together for it, so that the first enqueues for a fresh destination really collide (batch creation)
+	stampedePlan := pr.mode == "mix" && rng.Intn(3) == 0
 
 	// the events are built before the race starts
 	plans := make([][]*cx4Plan, nProd)
@@ -789,14 +876,23 @@ func cx4RunRound(tw *verifkit.TraceWriter, rng *rand.Rand, pr cx4Params, nextRea
 			*nextReal++
 			size := 200
 			switch {
-			case pr.mode == "split":
-				size = []int{999999, 999999, 1000000, 1000000, 1000001, 200}[rng.Intn(6)]
+			case pr.mode == "split" && i > 0:
+				size = []int{999999, 999999, 999999, 1000000, 1000000, 1000001}[rng.Intn(6)]
 			case rng.Intn(40) == 0:
 				size = 1000001
 			case rng.Intn(6) == 0:
 				size = 300
 			}
 			d := rng.Intn(nDest)
+			if pr.mode == "mix" && i < nDest && stampedePlan {
+				d, size = i, 200
+			}
+			if pr.mode == "split" {
+				d = 0
+				if size < 1000 {
+					d = 1
+				}
+			}
 			ev, err := cx4Sized(*nextReal, d, size)
 			if err != nil {
 				return err
@@ -808,6 +904,19 @@ func cx4RunRound(tw *verifkit.TraceWriter, rng *rand.Rand, pr cx4Params, nextRea
 		}
 	}
 
+	if pr.mode == "split" {
+		for p := range plans {
+			rng.Shuffle(len(plans[p]), func(i, j int) { plans[p][i], plans[p][j] = plans[p][j], plans[p][i] })
+		}
+	}
+	stampede := 0
+	if stampedePlan {
+		stampede = nDest
+		if perProd < stampede {
+			stampede = perProd
+		}
+	}
+	r.clock.tight = stampedePlan
 	dt := NewDirectTransmission(types.TransmitTypeUpstream, cx4Tr, pr.maxBatch, time.Duration(4*pr.sub)*cx4Unit, time.Hour, false,
 		map[string]string{"X-CX4-Round": r.tag})
 	dt.Clock = r.clock
@@ -820,12 +929,6 @@ func cx4RunRound(tw *verifkit.TraceWriter, rng *rand.Rand, pr cx4Params, nextRea
 	SetVerifHooks(&VerifHooks{Emit: r.hook})
 	defer SetVerifHooks(nil)
 	tw.Reset(map[string]any{"maxBatch": pr.maxBatch, "sub": pr.sub, "dests": nDest, "producers": nProd, "events": total, "faultPct": fault, "mode": pr.mode})
-	cx4T := time.Now()
-	cx4Lap := func(what string) {
-		if os.Getenv("CX4_TIMING") != "" {
-			fmt.Fprintf(os.Stderr, "cx4 %s %s %v\n", r.tag, what, time.Since(cx4T))
-		}
-	}
 	if err := dt.Start(); err != nil {
 		return err
 	}
@@ -834,11 +937,16 @@ func cx4RunRound(tw *verifkit.TraceWriter, rng *rand.Rand, pr cx4Params, nextRea
 		runtime.Gosched()
 	}
 
-	cx4Lap("tickers up")
-	logAdvance := func(now int) { r.emit("advance", map[string]any{"now": now}) }
 	var stepMu sync.Mutex
 	stepCond := sync.NewCond(&stepMu)
-	steps, capped := 0, false
+	steps, advs, capped := 0, 0, false
+	logAdvance := func(now int) {
+		r.emit("advance", map[string]any{"now": now})
+		stepMu.Lock()
+		advs++
+		stepMu.Unlock()
+		stepCond.Broadcast()
+	}
 	maxSteps := 4*pr.sub + 2 + rng.Intn(4*pr.sub+4)
 	stopClock := make(chan struct{})
 	clockDone := make(chan struct{})
@@ -868,47 +976,61 @@ func cx4RunRound(tw *verifkit.TraceWriter, rng *rand.Rand, pr cx4Params, nextRea
 		<-r.clock.quit
 		dt.stopWG.Wait() // the dispatcher has exited: no pass can be in progress when the clock moves on
 		for {
+			for r.clock.sleepers() > 0 {
+				r.clock.move(logAdvance) // wakes Retry-After sleepers so that Stop can finish
+				runtime.Gosched()
+			}
 			select {
 			case <-stopClock:
 				return
-			default:
+			case <-r.clock.slept:
 			}
-			if r.clock.sleepers() > 0 {
-				r.clock.move(logAdvance) // wakes Retry-After sleepers so that Stop can finish
-			}
-			runtime.Gosched()
 		}
 	}()
-	awaitStep := func(k int) {
+	awaitStep := func(k int) { // k more steps are complete (clock moved, stale pass over)
 		stepMu.Lock()
 		for target := steps + k; steps < target && !capped; {
 			stepCond.Wait()
 		}
 		stepMu.Unlock()
 	}
+	awaitAdvance := func() { // the clock is about to move: what the caller does next overlaps the stale pass
+		stepMu.Lock()
+		for target := advs + 1; advs < target && !capped; {
+			stepCond.Wait()
+		}
+		stepMu.Unlock()
+	}
 
 	var wg sync.WaitGroup
+	gate := make(chan struct{}) // the producers start together
+	bar := &cx4Barrier{n: int32(nProd)}
 	for p := range plans {
 		wg.Add(1)
 		go func(mine []*cx4Plan, prng *rand.Rand) {
 			defer wg.Done()
-			for _, pl := range mine {
+			<-gate
+			for i, pl := range mine {
 				r.emit("enq_call", map[string]any{"p": pl.prod})
+				if i < stampede {
+					bar.wait()
+				}
 				dt.EnqueueEvent(pl.ev)
-				switch prng.Intn(6) {
+				switch prng.Intn(7) {
 				case 0:
 					awaitStep(1)
 				case 1, 2:
+					awaitAdvance()
+				case 3, 4:
 					runtime.Gosched()
 				}
 			}
 		}(plans[p], rand.New(rand.NewSource(rng.Int63())))
 	}
+	close(gate)
 	wg.Wait()
-	cx4Lap("producers done")
 	awaitStep([]int{0, 0, 1, 2, 4 * pr.sub, 5 * pr.sub}[rng.Intn(6)])
 
-	cx4Lap("extra steps done")
 	close(r.clock.quit)
 	r.emit("stop_call", nil)
 	stopped := make(chan struct{})
@@ -919,10 +1041,8 @@ func cx4RunRound(tw *verifkit.TraceWriter, rng *rand.Rand, pr cx4Params, nextRea
 		close(stopClock)
 		return fmt.Errorf("Stop did not return within 120 s")
 	}
-	cx4Lap("stop returned")
 	close(stopClock)
 	<-clockDone
-	cx4Lap("clock done")
 	if s, _ := r.clock.stuck.Load().(string); s != "" {
 		return fmt.Errorf("clock: %s", s)
 	}
@@ -970,10 +1090,7 @@ func TestVerifCX4Trace(t *testing.T) {
 	if m := os.Getenv("CX4_MODE"); m != "" {
 		pr.mode = m
 	}
-	if v, err := strconv.Atoi(os.Getenv("CX4_PROCS")); err == nil && v > 0 {
-		defer runtime.GOMAXPROCS(runtime.GOMAXPROCS(v))
-	}
-	maxRounds, maxLines := 400, 30000
+	maxRounds, maxLines := 400, 12000
 	if v, err := strconv.Atoi(os.Getenv("CX4_MAXROUNDS")); err == nil && v > 0 {
 		maxRounds = v
 	}
